@@ -21,9 +21,117 @@ func c19BlockFilterSeesLoadedAccounts(r *core.Report) {
 	if f == nil {
 		return
 	}
+	// unitOK: in h - the function that handles ONE transaction - every path to the exit that is not a `return true` passes
+	// the comparison of the loaded addresses, or one of the accepted reasons (undecodable, no table lookups).
+	var unitOK func(h *core.Func, depth int) (bool, []string)
+	// loadedAndAllowed computes, for function h, the nodes where the loaded addresses are consulted and the accepted skips.
+	analyse := func(h *core.Func, depth int) (loaded map[*core.GNode]bool, allowed func(*core.GNode) bool, g *core.Graph) {
+		info := h.Pkg.TypesInfo
+		g = p.Graph(h)
+		loaded = map[*core.GNode]bool{}
+		for _, nd := range stmtNodes(g) {
+			for _, c := range nodeCalls(nd) {
+				nm := core.CalleeName(info, c)
+				if strings.HasSuffix(nm, ".GetLoadedAccounts") || strings.HasSuffix(nm, ".GetLoadedAddresses") {
+					loaded[nd] = true
+				}
+				// a same-package helper that handles the transaction and itself reaches the loaded addresses
+				if depth > 0 {
+					if fo := core.Callee(info, c); fo != nil {
+						if hh := p.ByObj[fo.Origin()]; hh != nil && hh.Body != nil && hh.Pkg == h.Pkg && hh != h {
+							if ok, _ := unitOK(hh, depth-1); ok {
+								loaded[nd] = true
+							}
+						}
+					}
+				}
+			}
+		}
+		errVars := map[types.Object]bool{}
+		ast.Inspect(h.Body, func(m ast.Node) bool {
+			if as, ok := m.(*ast.AssignStmt); ok && len(as.Rhs) == 1 {
+				if _, isC := core.Unparen(as.Rhs[0]).(*ast.CallExpr); isC && len(as.Lhs) >= 1 {
+					if o := core.ObjOf(info, as.Lhs[len(as.Lhs)-1]); o != nil && core.IsErrorType(o.Type()) {
+						errVars[o] = true
+					}
+				}
+			}
+			return true
+		})
+		allowed = func(e *core.GNode) bool {
+			if e.Kind != core.KEdge || e.Ast == nil {
+				return false
+			}
+			for _, fc := range e.Facts() {
+				if fc.Tag != nil {
+					continue
+				}
+				if x, eq, isNil := core.NilCompare(info, fc.Expr); isNil && errVars[core.ObjOf(info, x)] && eq != fc.Truth {
+					return true
+				}
+				if be, ok := core.Unparen(fc.Expr).(*ast.BinaryExpr); ok {
+					if x, c, isC := orientConst(info, be); isC && c == 0 && ((be.Op == token.EQL && fc.Truth) || (be.Op == token.NEQ && !fc.Truth) || (be.Op == token.GTR && !fc.Truth)) {
+						s := core.ExprStr(x)
+						if strings.HasSuffix(s, ".NumLookups()") || (strings.HasPrefix(s, "len(") && strings.Contains(s, "AddressTableLookups")) {
+							return true
+						}
+					}
+				}
+				if c, ok := core.Unparen(fc.Expr).(*ast.CallExpr); ok && !fc.Truth && strings.HasSuffix(core.CalleeName(info, c), ".IsVersioned") {
+					return true
+				}
+			}
+			return false
+		}
+		return loaded, allowed, g
+	}
+	unitOK = func(h *core.Func, depth int) (bool, []string) {
+		loaded, allowed, g := analyse(h, depth)
+		if len(loaded) == 0 {
+			return false, nil
+		}
+		info := h.Pkg.TypesInfo
+		retTrue := func(x *core.GNode) bool {
+			if rs, ok := x.Ast.(*ast.ReturnStmt); ok && len(rs.Results) == 1 {
+				if b, isC := boolConst(info, rs.Results[0]); isC && b {
+					return true
+				}
+			}
+			return false
+		}
+		path := g.PathAvoiding(g.Entry, func(x *core.GNode) bool { return x == g.Exit }, func(x *core.GNode) bool { return loaded[x] || allowed(x) || retTrue(x) })
+		return path == nil, g.PathStrings(path)
+	}
 	info := f.Pkg.TypesInfo
-	g := p.Graph(f)
-	// the loop over the block's transactions
+	const key = "#every-transaction-reaches-its-loaded-addresses"
+	const okMsg = "a transaction is passed over only after its loaded addresses were compared (or it could not be decoded / has no table lookups)"
+	const badMsg = "a transaction can be passed over without its loaded addresses having been compared with the filter accounts: a block whose only matching transaction loads the account from a lookup table (e.g. readonly) is not streamed"
+	// form 1: slices.ContainsFunc(block.Transactions, perTransaction)
+	for _, c := range core.CallsIn(f.Body, false) {
+		if !strings.HasSuffix(core.CalleeName(info, c), "slices.ContainsFunc") || len(c.Args) != 2 {
+			continue
+		}
+		if sel, ok := core.Unparen(c.Args[0]).(*ast.SelectorExpr); !ok || sel.Sel.Name != "Transactions" {
+			continue
+		}
+		var h *core.Func
+		switch x := core.Unparen(c.Args[1]).(type) {
+		case *ast.FuncLit:
+			h = p.ByLit[x]
+		default:
+			if fo, ok := core.ObjOf(info, x).(*types.Func); ok {
+				h = p.ByObj[fo.Origin()]
+			}
+		}
+		if h == nil || h.Body == nil {
+			r.Undecided(rule, f.Key+"#transaction-loop", pos(r, c), "the per-transaction predicate handed to slices.ContainsFunc is not a function of the repository")
+			return
+		}
+		ok, path := unitOK(h, 1)
+		r.Check(ok, rule, f.Key+key, pos(r, c), okMsg, badMsg, path...)
+		return
+	}
+	// form 2: a loop over the block's transactions
 	var loop *ast.RangeStmt
 	ast.Inspect(f.Body, func(m ast.Node) bool {
 		if rs, ok := m.(*ast.RangeStmt); ok && loop == nil {
@@ -37,58 +145,10 @@ func c19BlockFilterSeesLoadedAccounts(r *core.Report) {
 		r.Undecided(rule, f.Key+"#transaction-loop", posP(r, f.Pos()), "loop over the block's transactions not found")
 		return
 	}
-	// where the loaded addresses are consulted
-	loaded := map[*core.GNode]bool{}
-	for _, nd := range stmtNodes(g) {
-		for _, c := range nodeCalls(nd) {
-			nm := core.CalleeName(info, c)
-			if strings.HasSuffix(nm, ".GetLoadedAccounts") || strings.HasSuffix(nm, ".GetLoadedAddresses") {
-				loaded[nd] = true
-			}
-		}
-	}
+	loaded, allowed, g := analyse(f, 1)
 	if len(loaded) == 0 {
 		r.Violation(rule, f.Key+"#loaded-addresses-consulted", posP(r, f.Pos()), "the block filter never looks at the addresses a transaction loads from lookup tables: a block whose only matching transaction loads the account is not sent")
 		return
-	}
-	// error variables of decode / parse calls
-	errVars := map[types.Object]bool{}
-	ast.Inspect(loop.Body, func(m ast.Node) bool {
-		if as, ok := m.(*ast.AssignStmt); ok && len(as.Rhs) == 1 {
-			if _, isC := core.Unparen(as.Rhs[0]).(*ast.CallExpr); isC && len(as.Lhs) >= 1 {
-				if o := core.ObjOf(info, as.Lhs[len(as.Lhs)-1]); o != nil && core.IsErrorType(o.Type()) {
-					errVars[o] = true
-				}
-			}
-		}
-		return true
-	})
-	allowed := func(e *core.GNode) bool {
-		if e.Kind != core.KEdge || e.Ast == nil {
-			return false
-		}
-		for _, fc := range e.Facts() {
-			if fc.Tag != nil {
-				continue
-			}
-			// a failed decode / parse
-			if x, eq, isNil := core.NilCompare(info, fc.Expr); isNil && errVars[core.ObjOf(info, x)] && eq != fc.Truth {
-				return true
-			}
-			// no lookups at all
-			if be, ok := core.Unparen(fc.Expr).(*ast.BinaryExpr); ok {
-				if x, c, isC := orientConst(info, be); isC && c == 0 && ((be.Op == token.EQL && fc.Truth) || (be.Op == token.NEQ && !fc.Truth) || (be.Op == token.GTR && !fc.Truth)) {
-					s := core.ExprStr(x)
-					if strings.HasSuffix(s, ".NumLookups()") || (strings.HasPrefix(s, "len(") && strings.Contains(s, "AddressTableLookups")) {
-						return true
-					}
-				}
-			}
-			if c, ok := core.Unparen(fc.Expr).(*ast.CallExpr); ok && !fc.Truth && strings.HasSuffix(core.CalleeName(info, c), ".IsVersioned") {
-				return true
-			}
-		}
-		return false
 	}
 	var entry *core.GNode
 	for _, e := range g.Nodes {
@@ -102,6 +162,5 @@ func c19BlockFilterSeesLoadedAccounts(r *core.Report) {
 	}
 	path := g.PathAvoiding(entry, func(x *core.GNode) bool { return x.Kind == core.KEdge && x.Loop == ast.Stmt(loop) && x != entry },
 		func(x *core.GNode) bool { return loaded[x] || allowed(x) })
-	r.Check(path == nil, rule, f.Key+"#every-transaction-reaches-its-loaded-addresses", pos(r, loop), "a transaction is passed over only after its loaded addresses were compared (or it could not be decoded / has no table lookups)",
-		"a transaction can be passed over without its loaded addresses having been compared with the filter accounts: a block whose only matching transaction loads the account from a lookup table (e.g. readonly) is not streamed", g.PathStrings(path)...)
+	r.Check(path == nil, rule, f.Key+key, pos(r, loop), okMsg, badMsg, g.PathStrings(path)...)
 }
